@@ -148,6 +148,17 @@ impl Drop for Client {
         // bug causes a panic. The permit would never be returned to the
         // semaphore.
         self.limit_connections.add_permits(1);
+        #[cfg(memcrs_verif)]
+        crate::verif::note(
+            "sem.release",
+            None,
+            [
+                self.addr.port() as u64,
+                self.limit_connections.available_permits() as u64,
+                Arc::as_ptr(&self.limit_connections) as usize as u64,
+                0,
+            ],
+        );
     }
 }
 
